@@ -90,11 +90,13 @@ Write(c) ==
   \* index read + drive writes + trailer
   \/ (pc[c] = "write_body" /\ Goto(c, "write_closew") /\ UNCHANGED <<rest, lock, spc, chunks, want, pipe, faults, failed, badrel, returned>>)
   \/ (pc[c] = "write_body" /\ MayFault /\ faults' = faults + 1          \* a drive write / index read / source read fails
-        /\ failed' = [failed EXCEPT ![c] = TRUE]
+        /\ failed' = [failed EXCEPT ![c] = TRUE] /\ Goto(c, "write_failclose")
+        /\ UNCHANGED <<rest, lock, spc, chunks, want, pipe, badrel, returned>>)
+  \/ (pc[c] = "write_failclose"
         /\ (IF "D1" \in Dev
             THEN Goto(c, "write_relop") /\ UNCHANGED <<lock, badrel>>     \* pinned code: returns with the drive locked
             ELSE Goto(c, "write_relop") /\ Rel("phys", c))                 \* deferred CloseWriter
-        /\ UNCHANGED <<rest, spc, chunks, want, pipe, returned>>)
+        /\ UNCHANGED <<rest, spc, chunks, want, pipe, faults, failed, returned>>)
   \/ (pc[c] = "write_closew" /\ Rel("phys", c) /\ Goto(c, "write_getr") /\ UNCHANGED <<rest, spc, chunks, want, pipe, faults, failed, returned>>)
   \* GetReader for the indexing pass
   \/ (pc[c] = "write_getr" /\ Acq("phys", c) /\ Goto(c, "write_ropen") /\ UNCHANGED <<rest, spc, chunks, want, pipe, faults, failed, badrel, returned>>)
@@ -107,6 +109,9 @@ Write(c) ==
   \/ (pc[c] = "write_index" /\ MayFault /\ faults' = faults + 1
         /\ failed' = [failed EXCEPT ![c] = TRUE] /\ Goto(c, "write_closer")
         /\ UNCHANGED <<rest, lock, spc, chunks, want, pipe, badrel, returned>>)
+  \* a failing drive read while indexing is retried from the next block (the pass goes on)
+  \/ (pc[c] = "write_index" /\ MayFault /\ faults' = faults + 1
+        /\ UNCHANGED <<pc, rest, lock, spc, chunks, want, pipe, failed, badrel, returned>>)
   \/ (pc[c] = "write_closer" /\ Rel("phys", c) /\ Goto(c, "write_relop") /\ UNCHANGED <<rest, spc, chunks, want, pipe, faults, failed, returned>>)
   \/ (pc[c] = "write_relop" /\ Rel("opW", c) /\ Goto(c, "ret") /\ UNCHANGED <<rest, spc, chunks, want, pipe, faults, failed, returned>>)
 
@@ -121,7 +126,10 @@ Reject(c) ==
 
 \* ---- Stat / List: index reads under ioLock only
 Stat(c) ==
-  pc[c] = "stat_0" /\ Goto(c, "ret") /\ UNCHANGED <<rest, lock, spc, chunks, want, pipe, faults, failed, badrel, returned>>
+  \/ (pc[c] = "stat_0" /\ Goto(c, "ret") /\ UNCHANGED <<rest, lock, spc, chunks, want, pipe, faults, failed, badrel, returned>>)
+  \* an index lookup fails: the method returns the error (or treats it as "not there") with nothing else held
+  \/ (pc[c] = "stat_0" /\ MayFault /\ faults' = faults + 1 /\ Goto(c, "ret") /\ failed' = [failed EXCEPT ![c] = TRUE]
+        /\ UNCHANGED <<rest, lock, spc, chunks, want, pipe, badrel, returned>>)
 
 \* ---- reading: the client starts the stream goroutine and consumes chunks from the pipe
 ReadStart(c, kind, n) ==
@@ -152,10 +160,12 @@ CloseH(c) ==
 \* ---- the stream goroutine: Restore under readOps' lock and the drive
 Stream(c) ==
   \/ (spc[c] = "s_op" /\ Acq("opR", S(c)) /\ spc' = [spc EXCEPT ![c] = "s_getr"] /\ UNCHANGED <<pc, rest, chunks, want, pipe, faults, failed, badrel, returned>>)
-  \/ (spc[c] = "s_getr" /\ Acq("phys", S(c)) /\ spc' = [spc EXCEPT ![c] = "s_loop"] /\ UNCHANGED <<pc, rest, chunks, want, pipe, faults, failed, badrel, returned>>)
-  \/ (spc[c] = "s_getr" /\ MayFault /\ faults' = faults + 1               \* opening the drive fails: error goes through the pipe
-        /\ pipe' = [pipe EXCEPT ![c] = "closed"] /\ spc' = [spc EXCEPT ![c] = "s_relop"]
-        /\ UNCHANGED <<pc, rest, lock, chunks, want, failed, badrel, returned>>)
+  \* GetReader: lock the drive, then open it
+  \/ (spc[c] = "s_getr" /\ Acq("phys", S(c)) /\ spc' = [spc EXCEPT ![c] = "s_open"] /\ UNCHANGED <<pc, rest, chunks, want, pipe, faults, failed, badrel, returned>>)
+  \/ (spc[c] = "s_open" /\ spc' = [spc EXCEPT ![c] = "s_loop"] /\ UNCHANGED <<pc, rest, lock, chunks, want, pipe, faults, failed, badrel, returned>>)
+  \/ (spc[c] = "s_open" /\ MayFault /\ faults' = faults + 1               \* opening the drive fails: GetReader unlocks, the error goes through the pipe
+        /\ Rel("phys", S(c)) /\ pipe' = [pipe EXCEPT ![c] = "closed"] /\ spc' = [spc EXCEPT ![c] = "s_relop"]
+        /\ UNCHANGED <<pc, rest, chunks, want, failed, returned>>)
   \* offer the next chunk on the unbuffered pipe (blocks until consumed or the pipe is closed) ...
   \/ (spc[c] = "s_loop" /\ chunks[c] > 0 /\ pipe[c] = "open" /\ spc' = [spc EXCEPT ![c] = "s_offer"]
         /\ UNCHANGED <<pc, rest, lock, chunks, want, pipe, faults, failed, badrel, returned>>)
